@@ -1,6 +1,7 @@
 package searchsim
 
 import (
+	"encoding/json"
 	"fmt"
 	"sort"
 	"strings"
@@ -124,6 +125,52 @@ func genC08(tier string, run int, r *simcore.Rand) *harness.Plan {
 		}
 		ops = append(ops[:at], append(qs, ops[at:]...)...)
 	}
+	// one run in 150: more matches than the search handler's page limit (1000):
+	// a bulk delivery of opaque blobs, then a few queries that match them
+	// all, asked through Handler.Query and through the HTTP entry point
+	if rb := simcore.NewRand(simcore.Mix(r.Uint64(), "bulk")); rb.Intn(150) == 0 {
+		ops = append(ops, Op{K: "bulk", N: rb.Range(1005, 1120), Seed: rb.Uint64()})
+		for _, lim := range []int{-1, 0, 999, 1000, 1001, rb.Range(1002, 1100)} {
+			ops = append(ops, Op{K: "query", Q: &Query{C: &QC{Size: &QInt{Min: 1}}, Sort: "blobref", Limit: lim, DiffOnly: true}})
+		}
+		ops = append(ops, Op{K: "query", Q: &Query{C: &QC{Any: true}, Sort: "unsorted", Limit: -1, DiffOnly: true}})
+	}
+	// directories with more than one parent: for each of their parents, the
+	// directories (and files) whose parentDir is exactly that parent
+	if cfg.Mode != "rows" {
+		parents := map[int][]int{}
+		var members func(ss int, f func(int))
+		members = func(ss int, f func(int)) {
+			it := spec.Items[ss]
+			for _, m := range it.Mem {
+				f(m)
+			}
+			for _, m := range it.Merge {
+				members(m, f)
+			}
+		}
+		for di, it := range spec.Items {
+			if it.K == "dir" {
+				members(it.Ent, func(m int) { parents[m] = append(parents[m], di) })
+			}
+		}
+		for _, m := range wi.all {
+			if len(parents[m]) < 2 {
+				continue
+			}
+			for _, pd := range parents[m] {
+				pc := &QDir{Pfx: &QPfx{I: pd}}
+				c := &QC{Dir: &QDir{Parent: pc}}
+				if spec.Items[m].K == "file" {
+					c = &QC{File: &QFile{Parent: pc}}
+				}
+				for k := 0; k < 2; k++ {
+					ops = append(ops, Op{K: "query", Q: &Query{C: c, Sort: []string{"unsorted", "blobref"}[k]}})
+				}
+			}
+			break
+		}
+	}
 	p := &harness.Plan{Mode: cfg.Mode, Config: harness.MustJSON(cfg), Bubble: true, Ops: opsJSON(ops)}
 	p.LockYield = []int{0, 0, 100, 1000}[r.Intn(4)]
 	p.Sticky = []int{0, 0, 500, 900}[r.Intn(4)]
@@ -219,6 +266,14 @@ func (x *exec) runC08() *harness.Outcome {
 			}
 			ndeliv += j - i
 			i = j
+		case "bulk":
+			x.reseed("bulk")
+			if err := x.sess.Segment([]indexsim.Op{{K: "bulk", C: 1, N: op.N, Seed: op.Seed}}, i); err != nil {
+				out.Inconclusive = "bulk delivery never finished: " + err.Error()
+				return out
+			}
+			out.Reached["bulk-delivery"]++
+			i++
 		case "restart":
 			if !x.restart() {
 				return out
@@ -323,11 +378,52 @@ func (x *exec) queryBatch(i, j, ndeliv int, lastSorted map[string]int) (nq, comp
 			}
 			lastSorted[es] = ndeliv
 		}
-		if x.judge(v, jb.q, jb.sq, &jb.ans, jb.op) {
+		if jb.q.DiffOnly {
+			compared++
+		} else if x.judge(v, jb.q, jb.sq, &jb.ans, jb.op) {
 			compared++
 		}
 		if x.stopped {
 			break
+		}
+	}
+	// the HTTP entry point against the direct call, at the same quiescent state
+	for _, jb := range jobs {
+		if x.stopped || jb.ans.panicv != nil || (!jb.q.DiffOnly && jb.op%3 != 0) {
+			continue
+		}
+		var h answer
+		sq := b.query(jb.q)
+		x.reseed("query-http")
+		if err := x.sess.Task("qh", func() { h = x.askHTTP(sq) }); err != nil {
+			x.out.Inconclusive = "HTTP query never finished: " + err.Error()
+			x.stopped = true
+			break
+		}
+		x.out.Reached["http-entry-compared"]++
+		if len(jb.ans.refs) > 1000 {
+			x.out.Reached["http-entry-compared:over-1000-results"]++
+		}
+		// (blobs that compare equal under the sort may come in either order,
+		// and which of them a limit cuts off is open: counts, presence of a
+		// continue token and - for results not cut by the limit - the sets
+		// are compared)
+		same := (h.err == nil) == (jb.ans.err == nil) && (h.cont == "") == (jb.ans.cont == "") && len(h.refs) == len(jb.ans.refs)
+		cut := jb.q.Limit > 0 && len(jb.ans.refs) >= jb.q.Limit
+		if same && h.err == nil && !cut {
+			got := map[string]bool{}
+			for _, r := range h.refs {
+				got[r] = true
+			}
+			for _, r := range jb.ans.refs {
+				if !got[r] {
+					same = false
+				}
+			}
+		}
+		if !same {
+			q, _ := json.Marshal(jb.sq)
+			x.report("http-differs-from-direct", "", x.mode(), fmt.Sprintf("the same query at the same state: Handler.Query returns %d results (continue %q, error %v), POST camli/search/query returns %d (continue %q, error %v); query %s", len(jb.ans.refs), jb.ans.cont, jb.ans.err, len(h.refs), h.cont, h.err, clipStr(string(q), 300)), jb.op)
 		}
 	}
 	return nq, compared
@@ -626,4 +722,11 @@ func (x *exec) compare(v *view, want map[string]bool, got []string, es string, l
 		}
 	}
 	return nil
+}
+
+func clipStr(s string, n int) string {
+	if len(s) > n {
+		return s[:n] + "..."
+	}
+	return s
 }
